@@ -31,7 +31,9 @@ RULE = ("seeded class-based zoo over 34 classes (7 core labelled-matrix base cla
         "arrays present/absent, taxa/variants grouped/ungrouped, 1-3 traits, label alphabets ASCII / non-ASCII / with "
         "separators, sorted / unsorted label order, NaN data, standardised / arbitrary location-scale; table readers told "
         "their columns by name / by integer position / mixed, trait columns inferred or listed explicitly, label columns "
-        "moved to other places of the frame, optional label columns switched off on both sides; group paths None / "
+        "moved to other places of the frame, optional label columns switched off on both sides; genetic maps without spline / "
+        "default spline / spline of every supported kind (linear, slinear, nearest, nearest-up, zero, previous, next, quadratic, "
+        "cubic) and fill value (extrapolate or a number), built by the constructor options or by build_spline(); group paths None / "
         "nested / trailing slash / non-ASCII / with spaces; file given as str / Path / open h5py.File; write histories of "
         "2-4 objects on one location (richer->poorer, poorer->richer, same, cross-class); multi-step sessions through one "
         "caller-owned open h5py.File (2-3 groups written, read back - some twice -, overwritten, read again; handle checked "
@@ -52,6 +54,11 @@ ASSUME = [
     "labels are unique within an axis and are not numeric-looking/NA-like strings for CSV routes (pandas type inference is "
     "not the library's)",
     "random-generator handles (rng) of phenotyping protocols are external resources, not object state",
+    "observable equality includes behaviour that depends on construction options no array attribute shows: interp_genpos / "
+    "interp_gmap / gdist1p / gdist2p between markers and beyond the map ends and gdist1g / gdist2g of genetic maps, unscale() of "
+    "breeding-value matrices, predict_numpy() of genomic models on fixed design matrices (a query that raises must raise the "
+    "same exception type on both sides)",
+    "pickle round trips are judged as copies where the class can be pickled; a class that cannot is only counted",
     "a VCF record without ID may be imported as '.', 'None', '' or None; with auto_group_vrnt=True the imported variants "
     "may be reordered as long as every record stays intact and all records are present",
     "CSV readers that do not forward float_precision (ExtendedGeneticMap.from_csv) and routes whose own options require "
@@ -59,7 +66,7 @@ ASSUME = [
 ]
 TRUSTED = ["h5py, pandas, cyvcf2 as used by the library", "pbmon/oracle/obsequal.py"]
 TOL = 1e-9
-QUICK_TOTAL, THOROUGH_TOTAL = 6000, 240000
+QUICK_TOTAL, THOROUGH_TOTAL = 6000, 200000
 
 
 # =============================================================== helpers
@@ -336,12 +343,19 @@ def _is_sorted(lab):
     return l == sorted(l)
 
 
+SPLINE_KINDS = {"linear": 2, "slinear": 2, "nearest": 2, "nearest-up": 2, "zero": 2, "previous": 2, "next": 2, "quadratic": 3, "cubic": 4}
+
+
 def build_gmap(g, cls_name, richness, lcls):
+    """Genetic maps; the interpolation spline is absent, built with the defaults, or built with any supported kind and
+    fill value - through the constructor options or by an explicit build_spline() call."""
     cls = get_class(cls_name)
     nchr = int(g.integers(1, 4))
+    kind = pick(g, list(SPLINE_KINDS)) if g.random() < 0.6 else "linear"
+    fill = "extrapolate" if g.random() < 0.75 else numpy.array(pick(g, [0.0, numpy.nan, -1.0]))
     chrs, pos, gen = [], [], []
     for c in range(nchr):
-        k = int(g.integers(2, 6))
+        k = int(g.integers(SPLINE_KINDS[kind], 7))
         pp = numpy.sort(g.choice(numpy.arange(1, 400), k, replace=False)) * 5
         gg = numpy.cumsum(g.uniform(0.001, 0.4, k))
         if g.random() < 0.3:
@@ -351,8 +365,10 @@ def build_gmap(g, cls_name, richness, lcls):
     perm = g.permutation(m) if g.random() < 0.6 else numpy.arange(m)
     chrs = numpy.array(chrs, dtype="int64")[perm]; pos = numpy.array(pos, dtype="int64")[perm]; gen = numpy.array(gen, dtype=float)[perm]
     auto_group = bool(g.random() < 0.8)
-    auto_spline = bool(g.random() < 0.8)
-    kw = dict(auto_group=auto_group, auto_build_spline=auto_spline)
+    how = pick(g, ["none", "constructor", "constructor", "build_spline()", "build_spline()"])
+    kw = dict(auto_group=auto_group, auto_build_spline=(how == "constructor"))
+    if how == "constructor":
+        kw.update(spline_kind=kind, spline_fill_value=fill)
     if cls_name == "ExtendedGeneticMap":
         stop = pos + g.integers(0, 4, m)
         if _rich(g, richness):
@@ -362,8 +378,14 @@ def build_gmap(g, cls_name, richness, lcls):
         obj = cls(chrs, pos, stop.astype("int64"), gen, **kw)
     else:
         obj = cls(chrs, pos, gen, **kw)
+    if how == "build_spline()":
+        obj.build_spline(kind=kind, fill_value=fill)
+    has = obj.spline is not None
+    sk = obj.spline_kind if has else None
+    scls = "no spline" if not has else ("default linear spline" if (sk == "linear" and isinstance(obj.spline_fill_value, str))
+                                        else "spline of non-default kind or fill value")
     meta = dict(lcls=lcls if ("vrnt_name" in kw) else "labels absent", gcls="grouped" if auto_group else "ungrouped",
-                dcls="spline built" if auto_spline else "no spline", trivial=False, auto_group=auto_group, auto_spline=auto_spline)
+                dcls="spline built" if has else "no spline", pcls=scls, trivial=False, auto_group=auto_group, auto_spline=has)
     return Spec(obj, cls_name, meta)
 
 
@@ -566,7 +588,8 @@ def judge(ctx, clause, site, src_obs, got_obs, meta, coords, fmt, tol=None, skip
         if not fields and not (cat == "params" and "__class__" in [x[0] for x in by_cat.get(cat, [])]):
             continue
         bad = by_cat.get(cat, [])
-        icls = icls_override or icls_for(cat, meta)
+        # how the columns were designated concerns what is read from columns; parameters keep their own input class
+        icls = icls_for(cat, meta) if (not icls_override or cat in ("params", "groupindex")) else icls_override
         ctx.check(clause, not bad, site, REL[cat] + note, icls if prefix is None else "%s/%s" % (prefix, icls),
                   what=None if not bad else "%s: %s after %s: %s" % (site, REL[cat], fmt, "; ".join("%s: %s" % b for b in bad)[:400]),
                   witness=None if not bad else dict(extra or {}, source=_wit(src_obs), got=_wit(got_obs), differing=bad),
@@ -704,7 +727,7 @@ def table_options(g, spec):
         skip = set()
         route = "units " + ("M" if units in ("M", "Morgans") else "cM")
         if units in ("cM", "centiMorgans"):
-            tol = {"vrnt_genpos": TOL, "spline": TOL}
+            tol = {"vrnt_genpos": TOL, "spline": TOL, "behaviour": TOL}
     return wk, rk, skip, tol, route
 
 
@@ -913,7 +936,7 @@ def case_roundtrip(ctx, c):
                     ctx.check(clause, False, rsite, "location and scale handed to the reader are the object's location and scale",
                               "stored values written (unscale=False)", what="%s ignored location/scale (%s route): %s" % (rsite, fmt, dpar),
                               witness=dict(wit, source=src, got=gobs), coords=coords)
-                    skip = set(skip) | {"location", "scale", "mat"}
+                    skip = set(skip) | {"location", "scale", "mat", "behaviour"}
         ctx.sumnote("fields not representable in the tabular format (not demanded)", len(skip))
         if kind in VMAT_CLASSES:
             # long tables identify cells by label: (a) content equal cell by cell, (b) axis order of the source kept
@@ -1388,6 +1411,8 @@ def case_copy(ctx, c):
         ctx.sample({"case": c, "route": "copy", "class": kind, "meta": _meta_json(meta), "object": src})
     cls = type(obj)
     ways = [("copy.copy", lambda: _copy.copy(obj), "__copy__", False), ("copy.deepcopy", lambda: _copy.deepcopy(obj), "__deepcopy__", True)]
+    import pickle
+    ways.append(("pickle", lambda: pickle.loads(pickle.dumps(obj)), "__reduce_ex__", True))
     if hasattr(obj, "copy"):
         ways.append((".copy()", lambda: obj.copy(), "__copy__", False))
     if hasattr(obj, "deepcopy"):
@@ -1396,19 +1421,28 @@ def case_copy(ctx, c):
     # phase 1: equality of every kind of copy (nothing is mutated)
     for wname, fn, dunder, deep in ways:
         site = defsite(cls, dunder)
-        try:
-            cp = guarded(ctx, site, wname, coords, fn, {"object": src})
-        except Raised:
-            continue
-        ctx.check("C16.copy.equal", cp is not obj, site, "copy is a new object", "deep copy" if deep else "shallow copy", coords=coords)
-        judge(ctx, "C16.copy.equal", site, src, OE.observe(cp), meta, coords, wname, prefix="deep copy" if deep else "shallow copy")
+        wcls = "deep copy" if deep else "shallow copy"
+        if wname == "pickle":           # pickling is a copy mechanism only where the class supports it
+            site, wcls = "%s pickle round trip" % cls.__name__, "pickle copy"
+            try:
+                cp = fn()
+            except Exception as e:
+                ctx.raised("pickle not supported: " + cls.__name__, e)
+                continue
+        else:
+            try:
+                cp = guarded(ctx, site, wname, coords, fn, {"object": src})
+            except Raised:
+                continue
+        ctx.check("C16.copy.equal", cp is not obj, site, "copy is a new object", wcls, coords=coords)
+        judge(ctx, "C16.copy.equal", site, src, OE.observe(cp), meta, coords, wname, prefix=wcls)
     # phase 2: no shared mutable state.  (1) no array of a deep copy overlaps memory of the source, (2) scrambling every array and
     # dict of the copy in place and running in-place operations on a copy leave the source's digest unchanged
     fam = src["__family__"]
     for wname, fn, dunder, deep in ways:
         if not deep:
             continue
-        site = defsite(cls, dunder)
+        site = defsite(cls, dunder) if wname != "pickle" else "%s pickle round trip" % cls.__name__
         try:
             cp = fn()
         except Exception:
